@@ -8,7 +8,7 @@ From Coq Require Import NArith List Bool.
 Import ListNotations.
 Open Scope N_scope.
 
-Definition regPoolSize : nat := 10.   (* const regPoolSize *)
+Definition regPoolSize : nat := 10.   (* const regPoolSize: the default number of slots *)
 
 (* one pool slot: p.values[i] (None = nil) and p.exps[i] *)
 Record slot := mkSlot { sVal : option (N * list N); sExp : N }.
@@ -31,7 +31,8 @@ Inductive getres :=
 | GFresh (c : list N)             (* make([]Value, sz) *)
 | GPanic.                         (* index out of range *)
 
-(* for i := 0; i < regPoolSize; i++ { v := p.values[i]; if len(v) == sz { ... } } *)
+(* for i := 0; i < len(p.values); i++ { v := p.values[i]; if len(v) == sz { ... } }
+   (the loops ran to the constant regPoolSize before the repair of WithRegPoolSize(n < 10): an index panic) *)
 Fixpoint getScan (ss : list slot) (sz : nat) (i n : nat) : option (nat * getres) :=
   match n with
   | O => None
@@ -47,13 +48,13 @@ Fixpoint getScan (ss : list slot) (sz : nat) (i n : nat) : option (nat * getres)
 
 Definition get (p : vpool) (sz : nat) : vpool * getres :=
   let g := gen p + 1 in
-  match getScan (slots p) sz 0 regPoolSize with
+  match getScan (slots p) sz 0 (length (slots p)) with
   | None => (mkVPool (slots p) g (maxAge p), GFresh (repeat 0 sz))
   | Some (_, GPanic) => (mkVPool (slots p) g (maxAge p), GPanic)
   | Some (i, r) => (mkVPool (setNth i (mkSlot None 0) (slots p)) g (maxAge p), r)
   end.
 
-(* for i := 0; i < regPoolSize; i++ { if p.exps[i] < p.gen { zero v; p.values[i] = v; p.exps[i] = p.gen + p.maxAge; return } } *)
+(* for i := 0; i < len(p.values); i++ { if p.exps[i] < p.gen { zero v; p.values[i] = v; p.exps[i] = p.gen + p.maxAge; return } } *)
 Fixpoint relScan (ss : list slot) (g : N) (i n : nat) : option (option nat) :=
   match n with
   | O => None                         (* no slot: the slice is dropped *)
@@ -67,7 +68,7 @@ Fixpoint relScan (ss : list slot) (g : N) (i n : nat) : option (option nat) :=
 Inductive relres := RStored (i : nat) | RDropped | RPanic.
 
 Definition release (p : vpool) (id : N) (c : list N) : vpool * relres :=
-  match relScan (slots p) (gen p) 0 regPoolSize with
+  match relScan (slots p) (gen p) 0 (length (slots p)) with
   | None => (p, RDropped)
   | Some None => (p, RPanic)
   | Some (Some i) =>
